@@ -16,16 +16,17 @@ THEOREMS = [
     ("EG.props.C20", "C20_untouched_when_unchanged"),
     ("EG.props.C20", "C20_model_is_per_name"),
     ("EG.props.C20", "C20_late_watcher_equals_snapshot"),
+    ("EG.props.C20", "C20_apply_exactly_once"),
 ]
 HARNESSES = [
     dict(name="sup", pkg="pkg/supervisor", files=["harness/supervisor/zz_verif_c20_test.go"],
          run="TestVerifC20", groups=["sup", "join"], timeout=600, share=0.7),
     dict(name="tc", pkg="pkg/object/rawconfigtrafficcontroller", pkgname="rawconfigtrafficcontroller",
         files=["harness/rawconfigtrafficcontroller/zz_verif_c20_test.go"],
-        run="TestVerifC20TC", groups=["tc"], timeout=600, share=0.3),
+        run="TestVerifC20TC", groups=["tc", "apply"], timeout=600, share=0.3),
 ]
-GROUPS = {"sup": "check_sup", "tc": "check_tc", "join": "check_join"}
-EXPLAIN = {"sup": "explain_sup", "tc": "explain_tc", "join": "explain_join"}
+GROUPS = {"sup": "check_sup", "tc": "check_tc", "join": "check_join", "apply": "check_tc"}
+EXPLAIN = {"sup": "explain_sup", "tc": "explain_tc", "join": "explain_join", "apply": "explain_tc"}
 CASES = {"quick": 500, "thorough": 12000}
 RULE = ("cases: snapshot sequences over 1-4 names x 7 kinds (2 business controllers, 2 traffic gates, 2 pipeline-category kinds, "
         "1 unwatched system kind) x 3 contents (appear, change, unchanged, disappear, reappear, kind change inside and across "
@@ -140,7 +141,7 @@ def encode(c):
             so_gate=L([_inst(cats, r) for r in so.get("gate") or []]),
             so_pipe=L([_inst(cats, r) for r in so.get("pipe") or []])))
     return Rec(
-        k_grp=N(0 if c["grp"] == "sup" else 1),
+        k_grp=N({"sup": 0, "tc": 1, "apply": 2}[c["grp"]]),
         k_names=L([N(x) for x in range(int(i["names"]))]),
         k_steps=steps,
         k_pan=L([T(N(p[0]), N(p[1]), N(p[2])) for p in i.get("panics") or []]),
@@ -166,7 +167,7 @@ def distribution(cases):
     for c in cases:
         i, o = c["in"], c["obs"]
         d["groups"][c["grp"]] = d["groups"].get(c["grp"], 0) + 1
-        m = "join" if c["grp"] == "join" else ("direct" if i.get("mode", 0) == 0 and c["grp"] == "sup" else "e2e")
+        m = c["grp"] if c["grp"] in ("join", "apply") else ("direct" if i.get("mode", 0) == 0 and c["grp"] == "sup" else "e2e")
         if c["grp"] == "join":
             d.setdefault("join", dict(parked=0, overlap_requested=0, snapshot_inside_window=0, traffic_filter=0))
             d["join"]["parked"] += bool(o.get("parked"))
